@@ -123,6 +123,8 @@ class C14(Plugin):
             curies.write_tsv(c, path)
             with open(path, newline="") as f:
                 rows = list(csv.reader(f, delimiter="\t"))
+            if any(len(r) != 2 for r in rows):
+                return case, ["<a TSV row does not have exactly two fields>", [len(r) for r in rows]]
             return case, qprops.v_dict({r[0]: r[1] for r in rows[1:]})
         except Exception as e:
             return case, ["<" + type(e).__name__ + ": " + str(e)[:100] + ">"]
